@@ -1,4 +1,6 @@
 """C03 -- transformations are a left group action (S1, P1, W1, RO, U1)."""
+from ..rules import enum_rules as E
+from ..rules import misc_rules as MI
 from ..rules import proj_rules as P
 from ..rules import rep_rules as R
 from ..rules import cache_rules as CA
@@ -25,6 +27,10 @@ ENTRIES = [
 
 
 def run(ctx):
+    ctx.do(MI.rule_pinv1)
+    ctx.do(MI.rule_invs1)
+    ctx.do(E.rule_m3)
+    ctx.do(E.rule_m4)
     ctx.do(P.rule_s1, ops=[(PROJ, "Transformation.apply")])
     ctx.do(P.rule_p1, ops=[o for o in P.P1_OPS if "Transformation" in o[1]])
     ctx.do(P.rule_roles)
